@@ -152,7 +152,7 @@ def round2(pid, keep):
     props = claimed()
     notes = open(outdir + '/notes.txt').read() if os.path.exists(outdir + '/notes.txt') else ''
     try:
-        for kind, i in (('bug', 1), ('bug', 2), ('benign', 1), ('benign', 2), ('benign', 3)):
+        for kind, i in (('bug', 1), ('bug', 2), ('bug', 3), ('benign', 1), ('benign', 2), ('benign', 3)):
             d = '%s/%s%d.diff' % (outdir, kind, i)
             if only and kind != only:
                 continue
@@ -169,7 +169,7 @@ def round2(pid, keep):
                     continue
                 ok, line = baseline_ok(tree)
                 demos = {}
-                for j in (1, 2):
+                for j in (1, 2, 3):
                     demo = '%s/demo%d.py' % (outdir, j)
                     if os.path.exists(demo):
                         rc_c, _ = sh([PY, demo, clean], timeout=600)
@@ -190,7 +190,7 @@ def round2(pid, keep):
                     dst = '/verif/seeded/%s-r%s-%s%d' % (pid, rnd_, kind, i)
                     os.makedirs(dst, exist_ok=True)
                     shutil.copy(d, dst + '/patch.diff')
-                    for j in (1, 2):
+                    for j in (1, 2, 3):
                         demo = '%s/demo%d.py' % (outdir, j)
                         if os.path.exists(demo) and (kind == 'benign' or j == i):
                             shutil.copy(demo, dst + ('/demo.py' if kind == 'bug' else '/demo%d.py' % j))
